@@ -2,6 +2,7 @@ import XcpProofs.FsDefs
 import XcpProofs.FsFrame
 import XcpProofs.NoClobberTree
 import XcpProofs.MultiNoClobber
+import XcpProofs.GiConc
 /-! # C08 — `--no-clobber` never alters anything that already exists in the destination
 
 Model slice: the walker's existence probe (`lstat` after the `fix:` commit) and `execOps`.
@@ -149,5 +150,24 @@ theorem several_sources_any_interleaving_preserve (fs : Fs) (c : Cfg) (dest : RP
     (∀ op r, s.todo = op :: r → ∀ t, opTarget op = some t → s.fs.lexists t = false) ∧
     s.failed = false :=
   multi_noclobber_any_interleaving fs c dest items fuel hd hn hwf hdest hdd hfuel hsrc hnd hun habs hlen ls s hrun
+
+/-- … and with `--gitignore` patterns in force as well: in every reachable state every initial entry is kept, and the
+operation that completes next / the directory the walker creates next has a target that does not exist at that moment -/
+theorem one_source_with_gitignore_any_interleaving_preserves (fs : Fs) (c : Cfg) (hd : c.dereference = false) (hn : c.noClobber = true)
+    (ps : List Gi.Pattern)
+    (src tb : RPath) (srcNode : Node) (fuel : Nat)
+    (hwf : FsEq fs fs) (hroot : fs.root.isDir = true)
+    (hsrc : PlainTarget fs src) (hsn : fs.root.getAt src.names = some srcNode)
+    (hcop : srcNode.Copyable fuel)
+    (htb : PlainTarget fs tb) (hne : tb.names ≠ []) (habs : fs.root.getAt tb.names = none)
+    (hpar : ∃ es, fs.root.getAt tb.names.dropLast = some (.dir es))
+    (hun1 : ¬ src.names <+: tb.names) (hun2 : ¬ tb.names <+: src.names)
+    (hlen : src.names.length + fuel < 200 ∧ tb.names.length + fuel < 200)
+    (ls : List L0.Label) (st : L0.St)
+    (hrun : L0.run c (L0.init fs (walkEntry fs c (some ps) src tb (fuel + 1) [] [])) ls = some st) :
+    Preserved fs.root st.fs.root ∧
+    (∀ op ∈ st.queue, ∀ t, opTarget op = some t → st.fs.lexists t = false) ∧
+    (∀ op r, st.todo = op :: r → ∀ t, opTarget op = some t → st.fs.lexists t = false) :=
+  gitignore_noclobber_any_interleaving fs c hd hn ps src tb srcNode fuel hwf hroot hsrc hsn hcop htb hne habs hpar hun1 hun2 hlen ls st hrun
 
 end Xcp.C08
